@@ -399,7 +399,9 @@ impl Circuit {
             }
 
             gate_wires_map.insert(output_wire, next_wire);
-            next_wire += 1;
+            next_wire = next_wire
+                .checked_add(1)
+                .ok_or(FromBristolError::InvalidWireIndex(next_wire))?;
             let wires_map = |w: usize| -> usize {
                 let unassigned = if w < input_wires_num { w } else { 0 };
                 gate_wires_map.get(&w).copied().unwrap_or(unassigned)
